@@ -62,6 +62,21 @@ func VerifC10_OneInstr() {
 	zzverif.Reach("one-instr")
 }
 
+// The same with "true" on top of the stack (conditional jumps take their
+// branch): a backward conditional jump must run into the step limit.
+func VerifC10_OneInstrBool() {
+	buf := append([]byte{}, zzHeader...)
+	buf = append(buf, 2, 0, 0, 0)
+	buf = append(buf, 0x03, zzverif.Byte("flag")&1) // bool constant
+	buf = append(buf, 0x01, 7, 0, 0, 0, 0, 0, 0, 0)
+	buf = append(buf, 7, 0, 0, 0)
+	buf = append(buf, byte(OpPush), 1, 0, 0, 0, byte(OpPush), 0, 0, 0, 0)
+	buf = append(buf, zzverif.Byte("opcode"))
+	buf = append(buf, zzverif.Bytes("operand", 4)...)
+	zzRun(buf, 6)
+	zzverif.Reach("one-instr-bool")
+}
+
 func VerifC10_Twin() {
 	buf := append([]byte{}, zzHeader...)
 	buf = append(buf, zzverif.Bytes("body", 4)...)
